@@ -7,6 +7,9 @@ import mir
 GUARD_RE = re.compile(r"std::sync::MutexGuard<'[^,>]*, ")
 
 
+SCOPE_MAP_TY = [None]     # set by check once the program is loaded (anchors.scope_map_ty)
+
+
 def short_ty(t):
     """Human-oriented name for the four cells of value.rs / scope.rs."""
     if t is None:
@@ -17,7 +20,8 @@ def short_ty(t):
         return "Object"
     if t.startswith("eval::value::Func"):
         return "Func"
-    if t.startswith("std::collections::HashMap<std::string::String, (eval::value::SourcedValue"):
+    if t.startswith("std::collections::HashMap<std::string::String, (eval::value::SourcedValue") \
+            or (SCOPE_MAP_TY[0] and t.startswith(SCOPE_MAP_TY[0])):
         return "Scope"
     return t
 
